@@ -32,7 +32,7 @@ def grouped_shape(cls=None):
                  open_dict=True, excluded=("code", "vendor_id", "_avps"))
 
 
-@contract("bromelia.types.GroupedType.append", prop="C01", name="_")
+@contract("bromelia.types.GroupedType.append", prop="C01", name="_", also=("C11",))
 class _GAppend:
     """append(avp): the member list grows by avp (at the end, nothing else changes) and the data
     buffer by exactly the member's RFC 6733 encoding"""
@@ -82,7 +82,7 @@ def g_snapshot(self):
     return ghost_set("g_entry", GSnap(list(self._avps), self._data))
 
 
-@contract("bromelia.types.GroupedType.extend", prop="C01", name="_")
+@contract("bromelia.types.GroupedType.extend", prop="C01", name="_", also=("C11",))
 class _GExtend:
     args = {"self": grouped_shape(), "avps": T.Seq(AVP_ELEM)}
     loops = {0: Loop(heap={"self._avps": T.Seq(AVP_ELEM), "self._data": T.Bytes()}, open_dicts=("self",),
